@@ -34,6 +34,7 @@ DEFAULT_FEATURES = dict(
     ifexp=True,
     is_none=True,
     unbound_reads=True,  # do not pre-initialise the locals
+    rich_exprs=True,  # walrus, lambda call, comprehension, f-string, dict / tuple literal, starred argument, in / not in, chained and tuple assignment
 )
 
 VARS = ["a", "b", "x", "y"]
@@ -93,6 +94,10 @@ class _Gen:
         if self.f["boolop"] and (opaque or ((not operand or self.f["boolop_in_operand"]) and (not in_bool_tail or self.f["boolop_nested_operand"]))):
             kinds += ["bool", "bool", "bool"]
         kinds += ["chaincmp", "neg", "sub", "attr"]
+        if self.f["rich_exprs"]:
+            kinds += ["lambda", "listcomp", "fstr", "dictlit", "tuple", "star", "in"]
+            if not getattr(self, "_nested", 0):
+                kinds.append("walrus")  # not inside a lambda / comprehension: it would bind in (or is illegal in) the nested scope
         if self.f["ifexp"]:
             kinds.append("ifexp")
         if self.f["is_none"]:
@@ -124,6 +129,25 @@ class _Gen:
             return f"e({self.tag()}, {self.expr(d, True, opaque=opaque)})"
         if k == "ifexp":
             return f"({self.expr(d, True, opaque=True)} if {self.expr(d, True, opaque=True)} else {self.expr(d, True, opaque=True)})"
+        if k == "walrus":
+            return f"({self.pick(['x', 'y'])} := {self.expr(d, True, opaque=True)})"
+        if k in ("lambda", "listcomp"):
+            self._nested = getattr(self, "_nested", 0) + 1
+            try:
+                inner = self.expr(d, True, opaque=True)
+            finally:
+                self._nested -= 1
+            return f"(lambda: {inner})()" if k == "lambda" else f"[q for q in [{inner}]][0]"
+        if k == "fstr":
+            return "f\"{(" + self.expr(d, True, opaque=True) + ")}\""
+        if k == "dictlit":
+            return f"{{1: {self.expr(d, True, opaque=True)}}}[1]"
+        if k == "tuple":
+            return f"({self.expr(d, True, opaque=True)}, {self.expr(d, True, opaque=True)})[{self.pick([0, 1])}]"
+        if k == "star":
+            return f"e({self.tag()}, *[{self.expr(d, True, opaque=True)}])"
+        if k == "in":
+            return f"({self.expr(d, True, opaque=opaque)} {self.pick(['in', 'not in'])} ({self.expr(d, True, opaque=True)}, {self.expr(d, True, opaque=True)}))"
         if k == "sub":
             return f"[{self.expr(d, True, opaque=True)}][0]"
         if k == "attr":
@@ -189,6 +213,12 @@ class _Gen:
             return ["    " + l for l in ls]
 
         if k == "assign":
+            if self.f["rich_exprs"]:
+                r = self.i(0, 11)
+                if r == 0:
+                    return [f"{self.var(True)} = {self.var(True)} = {self.expr()}"]
+                if r == 1:
+                    return [f"{self.var(True)}, {self.var(True)} = {self.expr(1, True, opaque=True)}, {self.expr(1, True, opaque=True)}"]
             return [f"{self.var(True)} = {self.expr()}"]
         if k == "aug":
             return [f"{self.var(True)} {self.pick(['+=', '-=', '*='])} {self.expr(0, operand=True)}"]
